@@ -187,6 +187,13 @@ Second deepening round: per-run TRANSLATIONS of two pass bodies (fail-closed ast
   evaluated in Coq against the implementation's function on ~115 (quick) input lists (from generated models + random,
   incl. empty / all omitted), replay kind translation-mismatch.  A source change outside the fragment breaks the check
   (translate:C05GenTrim / C05GenOpsets), a change inside it breaks the equivalence proof.
+Round 6 seeded changes: r6m1 (DCE's unused-initializer cleanup over all graphs with the MAIN graph's liveness) -> template (k):
+  a subgraph returning its own initializer directly / a Loop body returning its initializer; r6m2 (ShapeInference merges with
+  ONE model-wide name table) -> template (m): sibling If branches reusing a value name for different element types, new pass
+  variant shape2 = ShapeInferencePass(strict_mode=False, data_prop=False) (the full checker after the pass judges the
+  annotations); r6m3 (CSE tensor key without dtype) -> template (l): Constants with equal bytes/shape and different element
+  types, observed through Cast.  New finding on the unchanged tree (known, proposed_fixes/C05-cse-omitted-output-key.diff +
+  -demo.py): cse-merges-node-with-omitted-output (template (n), corpus finding-cse-merges-node-with-omitted-output.json).
 Wall time: quick ~60-110 s under load (40 specs x (22 single passes + 5 sequences) + corpus), thorough ~9-12 min (400 specs).
 """
 
